@@ -16,7 +16,13 @@ GROUPS = {
     'G5': (['C17', 'C18', 'C19', 'C20'], 'falcon/asgi/ws.py, falcon/asgi/app.py (websocket parts), falcon/middleware.py, falcon/app.py '
            '(construction / first-request paths), falcon/routing/compiled.py (locking / lazy compilation)'),
 }
-KINDS = {'3': '''The four changes must be CORRECT rewrites of the RISKIEST kinds of code, one of each kind:
+KINDS = {'4': '''The four changes must be CORRECT changes around SIZES, INTERNAL LIMITS and the ENVIRONMENT, one of each kind:
+  change 1: change an INTERNAL constant that no property pins down - a read / stream block size, a default buffer or chunk size that is not documented, the size of a memo table or LRU cache, a pre-allocation size, a batch size - to another reasonable value (both smaller and larger values are of interest; do not touch documented defaults);
+  change 2: add, remove or restructure a CACHE / memoisation / precomputed table so that results stay identical for every input, every history of calls and under concurrent use (bounded, correctly invalidated, no shared mutable results);
+  change 3: a correct rewrite of code that handles LARGE inputs or MANY items: replace repeated concatenation by a join, a list by a generator (or back), recursion by iteration, a quadratic scan by a dict / set lookup, several small reads by one bulk read or the reverse - with identical results at every size, including the empty and the single-item case;
+  change 4: make code INDEPENDENT of the process environment in an equivalent way, or restructure environment-related code without changing results in any environment: e.g. replace naive-UTC datetime arithmetic by aware-UTC arithmetic with identical output, replace a locale-dependent call by a locale-independent one that gives the same result in every locale, replace an assert used for an internal invariant by an explicit check that raises the same error, move the reading of an environment variable from import time to an equivalent cached helper.
+
+''', '3': '''The four changes must be CORRECT rewrites of the RISKIEST kinds of code, one of each kind:
   change 1: a rewrite of an ERROR / CLEAN-UP path that is still complete and exact: restructure a try / except / finally, narrow or widen an except clause without changing which documented errors come out, close or release something at an equivalent earlier or later point (still exactly once, also when something fails or the task is cancelled);
   change 2: a rewrite of CONCURRENCY- or STATE-related code that is still safe: narrow a lock's scope without opening a window, replace a per-call allocation by a safely shared immutable object, reorder the publication of state so that readers still never see a half-built state, make a lazily built table eager;
   change 3: replace a PRIMITIVE by an equivalent one for every input in the domain: a regular expression by string methods or vice versa, a chain of ifs by a table, partition by split with a max count, str.format by an f-string, a manual loop by a library call - think hard about the corner cases (empty input, repeated separators, non-ASCII, case, trailing characters) and only deliver it if it is really equivalent;
